@@ -59,7 +59,13 @@ class ErrR(ProgErr):
     pass
 
 
-EXC_CLASSES = {'E': ProgErr, 'L': ErrL, 'K': ErrK, 'I': ErrI, 'V': ErrV, 'R': ErrR, 'Q': ErrQ}
+class ErrF(ProgErr):
+    """a failure whose truth value is false (an aggregate error with no entries: `__len__` is 0)"""
+    def __len__(self):
+        return 0
+
+
+EXC_CLASSES = {'E': ProgErr, 'L': ErrL, 'K': ErrK, 'I': ErrI, 'V': ErrV, 'R': ErrR, 'Q': ErrQ, 'F': ErrF}
 class InvariantBroken(AssertionError):
     """a derived privileged exception"""
 
@@ -72,8 +78,14 @@ class Quit(SystemExit):
     pass
 
 
+class EmptyReport(AssertionError):
+    """a derived privileged exception whose truth value is false"""
+    def __len__(self):
+        return 0
+
+
 PRIV_CLASSES = {'A': AssertionError, 'KI': KeyboardInterrupt, 'SE': SystemExit,
-                'A2': InvariantBroken, 'KI2': StopRequested, 'SE2': Quit}
+                'A2': InvariantBroken, 'KI2': StopRequested, 'SE2': Quit, 'A0': EmptyReport}
 
 
 def num(x):
